@@ -74,6 +74,7 @@ type Verifier struct {
 	localNames       map[*Object]string
 	writeLog         map[*Object]bool
 	ringUsed         map[string]bool
+	moduleVars       map[*Term]bool // variables that denote elements of an abstract abelian group (module layer)
 	layerKeys        map[*Contract]string
 	curLayerKey      string
 	steps, maxSteps  int
@@ -350,7 +351,12 @@ func (v *Verifier) globalObj(st *State, g *ssa.Global) (*Object, bool) {
 		}
 		o := v.newObject(g.Name(), t, true)
 		o.Global = true
-		val := v.F.Var("glob."+g.Pkg.Pkg.Name()+"."+g.Name(), SInt)
+		val := v.abstractVar("glob."+g.Pkg.Pkg.Name()+"."+g.Name(), t)
+		if v.isModule(t) && strings.HasSuffix(strings.ToLower(g.Name()), "infinity") {
+			// g1Infinity / g2Infinity: the neutral element (set to (1, 1, 0) by the package initialiser: Z = 0)
+			val = v.F.I64(0)
+			v.assume("module layer: package-level " + g.Pkg.Pkg.Name() + "." + g.Name() + " is the neutral element of the group")
+		}
 		v.globals[g] = o
 		v.globalInit[g] = val
 		st.mem[o] = val
@@ -752,6 +758,9 @@ func (fr *Frame) applyAnnot(st *State, a *Annot, label string, assert, assumeAft
 				fr.havocNamed(st, h, label)
 			}
 		}
+		if a.Forget && assert && st.headPC != nil {
+			st.pc = st.headPC
+		}
 		for _, inv := range a.Invariants {
 			st.pc = F.And(st.pc, se.evalBool(inv.E))
 		}
@@ -848,6 +857,18 @@ func (fr *Frame) lemma(st *State, se *SpecEnv, l LemmaCall, label string) {
 		fr.oblige(st, label+":lemma-hyp", F.And(F.Le(F.I64(0), a), F.Le(F.I64(0), b)), "hypotheses of "+l.Src)
 		st.pc = F.And(st.pc, F.Le(F.I64(0), F.Mul(a, b)))
 		fr.v.usedLemmas["mulnonneg"] = true
+	case "divsplit":
+		// x >= 0, a > 0, b > 0 constants: x div a == b*(x div (a*b)) + (x div a) mod b. The instance is itself an
+		// obligation (proved in isolation from the step it helps), then available as a fact.
+		if len(args) != 3 || args[1].Op != OConst || args[2].Op != OConst || args[1].K.Sign() <= 0 || args[2].K.Sign() <= 0 {
+			unsup("divsplit(x, a, b) needs positive constants a, b")
+		}
+		x, a, b := args[0], args[1], args[2]
+		fact := F.Eq(F.Div(x, a), F.Add(F.Mul(b, F.Div(x, F.Mul(a, b))), F.Mod(F.Div(x, a), b)))
+		iso := &State{mem: st.mem, pc: F.Le(F.I64(0), x), ghosts: st.ghosts, srcVar: st.srcVar, srcAdr: st.srcAdr, envs: st.envs, cnt: st.cnt}
+		fr.oblige(iso, label+":lemma-divsplit", fact, l.Src)
+		fr.oblige(st, label+":lemma-hyp", F.Le(F.I64(0), x), "hypotheses of "+l.Src)
+		st.pc = F.And(st.pc, fact)
 	default:
 		unsup("unknown lemma %q", l.Name)
 	}
@@ -980,7 +1001,7 @@ func (v *Verifier) freshOfType(name string, t types.Type, cur Value) Value {
 		}
 	}
 	if v.isAbstract(t) {
-		return v.F.Var(name, v.abstractSort(t))
+		return v.abstractVar(name, t)
 	}
 	switch u := t.Underlying().(type) {
 	case *types.Array:
